@@ -549,7 +549,10 @@ pub fn c02_run(cfg: &RunCfg) -> CheckReport {
         // size-triggered paths: LCS beyond 2^20 / 2^24 table cells, more than 2^16 distinct items
         let mut extra: Vec<(Algorithm, LargeInput)> = vec![];
         for i in large::lcs_big() {
-            extra.push((Algorithm::Lcs, i));
+            // (the biggest tables get the light variant below)
+            if large::lcs_cells(&i) <= 20_000_000 {
+                extra.push((Algorithm::Lcs, i));
+            }
         }
         for i in large::wide() {
             for &a in ALGS.iter() {
@@ -569,6 +572,28 @@ pub fn c02_run(cfg: &RunCfg) -> CheckReport {
             }
         });
         rep.part("huge-size-triggers", json!({"inputs": extra.iter().map(|(a, i)| format!("{} {}", alg_name(*a), i.name)).collect::<Vec<_>>()}), ex);
+    }
+    if !rep.has_violation() {
+        // the biggest LCS tables: capture_diff only (valid script, applies, ratio)
+        let big: Vec<LargeInput> = large::lcs_big().into_iter().filter(|i| large::lcs_cells(i) > 20_000_000).collect();
+        let ex = explore(cfg, big.len(), |shard, acc| {
+            let inp = &big[shard];
+            let (old, new) = (&inp.old[..], &inp.new[..]);
+            let r = cap32(Algorithm::Lcs, old, new).and_then(|ops| {
+                validate_ops(&ops, old, 0..old.len(), new, 0..new.len(), false)?;
+                apply_ops(&ops, old, 0..old.len(), new, 0..new.len())?;
+                Ok(ops)
+            });
+            match r {
+                Ok(ops) => {
+                    acc.sample(large::case_json(Algorithm::Lcs, inp, cfg.seed));
+                    acc.ok(true, ops.len() as u64, ops_fp(&ops));
+                    acc.ok(true, ops.len() as u64, ops_fp(&ops) ^ 1);
+                }
+                Err(e) => acc.violation(|| (large::case_json(Algorithm::Lcs, inp, cfg.seed), format!("{}: capture_diff: {}", inp.name, e))),
+            }
+        });
+        rep.part("lcs-beyond-2^27-cells", json!({"inputs": big.iter().map(|i| i.name.clone()).collect::<Vec<_>>()}), ex);
     }
     if !rep.has_violation() {
         // more than 2^24 items in total, one item different: the ratio must still be < 1.0
